@@ -3,7 +3,7 @@ from typing import BinaryIO, List
 
 import numpy as np
 
-from ..utils import read_string, write_as_c_string
+from ..utils import read_string, write_string
 from .known import IKnownVLR, vlr_factory
 from .vlr import VLR
 
@@ -187,7 +187,7 @@ class VLRList(list):
             record_data = vlr.record_data_bytes()
 
             stream.write(b"\0\0")
-            write_as_c_string(stream, vlr.user_id, USER_ID_LEN)
+            write_string(stream, vlr.user_id, USER_ID_LEN)
             stream.write(vlr.record_id.to_bytes(2, byteorder="little", signed=False))
             if as_extended:
                 stream.write(
@@ -202,7 +202,7 @@ class VLRList(list):
                 stream.write(
                     len(record_data).to_bytes(2, byteorder="little", signed=False)
                 )
-            write_as_c_string(
+            write_string(
                 stream,
                 vlr.description,
                 DESCRIPTION_LEN,
